@@ -79,6 +79,8 @@ pub struct BuiltObs {
     pub coll_set_at: Option<usize>,
     pub coll_dirty: bool,
     pub coll_pct: Option<u64>,
+    /// certificates the history has successfully set so far (the interpreter's own mirror builder), as bytes
+    pub expected_certs: Vec<Vec<u8>>,
 }
 
 /// An item a redeemer was attached to (ground truth for C10).
@@ -856,6 +858,10 @@ impl<'a> Session<'a> {
             coll_set_at: self.coll_set_at,
             coll_dirty: self.coll_dirty,
             coll_pct: self.coll_pct,
+            expected_certs: {
+                let c = self.certs.build();
+                (0..c.len()).map(|i| c.get(i).to_bytes()).collect()
+            },
         });
     }
 
@@ -1506,7 +1512,7 @@ impl<'a> Session<'a> {
                 self.mark_value_change();
                 Res::Ok
             }
-            Op::SetCertsLegacy => {
+            Op::SetCertsLegacy | Op::SetCertsLegacyWith(_) => {
                 // only certificates that need no script witness can go through the old setter
                 let built = self.certs.build();
                 let mut plain = csl::Certificates::new();
@@ -1515,6 +1521,10 @@ impl<'a> Session<'a> {
                     if !c.has_required_script_witness() {
                         plain.add(&c);
                     }
+                }
+                if let Op::SetCertsLegacyWith(extra) = op {
+                    need!(self.cert_ok(extra));
+                    plain.add(&self.cert(extra));
                 }
                 let tx = &mut self.tx;
                 #[allow(deprecated)]
